@@ -793,6 +793,39 @@ def project_checks(ctx, t, types):
                     ok = False; break
         if not ok:
             ctx.fail(f'project ({kind}): the result does not hold the elements of the tensor at the requested pattern', case, r.tolist(), None, tags=['project', kind])
+        # the model `Pj.projectPT` of the method (unification of the tensor's axes with the requested ones, two strided views, copy): flat result
+        if t.dtype != torch.bool and not any(k_._numel == 0 for k_ in tuple(t.paxes) + tuple(paxes)) and r.numel() <= 400:
+            from .common import enc_ext
+            ids = {}
+            def key(tag, k_):
+                return ids.setdefault((tag, id(k_)), len(ids))
+            def ea(e, tag):
+                if isinstance(e, PhysicalAxis): return f'P {key(tag, e)} {e._numel}'
+                if isinstance(e, ProductAxis): return 'X ' + enc_list(e.factors, lambda f_: ea(f_, tag))
+                return f'S {e.before} {ea(e.term, tag)} {e.after}'
+            et = (f'{enc_list(t.physical.contiguous().reshape(-1).tolist() if t.physical.numel() else [], enc_ext)} '
+                  f'{enc_list(t.paxes, lambda k_: str(key("t", k_)) + " " + str(k_._numel))} {enc_list(t.vaxes, lambda e: ea(e, "t"))} {enc_ext(float(t.default))}')
+            ep = enc_list(paxes, lambda k_: str(key('p', k_)) + ' ' + str(k_._numel))
+            ev_ = enc_list(vaxes, lambda e: ea(e, 'p'))
+            ctx.extra.setdefault('_pj_reqs', []).append(f'C06.projectPT {et} {ep} {ev_} {len(ids) + 3}')
+            ctx.extra.setdefault('_pj_meta', []).append((dict(case, stream='projectPT-model'), r.contiguous().reshape(-1).tolist()))
+
+
+def run_projectpt_model(ctx):
+    from .common import dec_ext
+    for (case, flat), rep in zip(ctx.extra.pop('_pj_meta', []), ctx.driver.ask_many(ctx.extra.pop('_pj_reqs', []))):
+        if isinstance(rep, Exception):
+            raise rep
+        ctx.evaluations += 1
+        if not rep.startswith('ok'):
+            ctx.disagree('Pj.projectPT: the model raises where PatternedTensor.project returns a tensor', case, 'ok', rep[:80]); continue
+        toks = rep.split()[1:]
+        n = int(toks[0]); mv = [dec_ext(x) for x in toks[1:1 + n]]
+        ctx.count('projectPT-model.' + ('theorem-applies' if toks[-1] == 'T' else 'outside-hypothesis'))
+        if len(mv) != len(flat) or not all(a == b or (a != a and b != b) for a, b in zip(mv, flat)):
+            ctx.disagree('Pj.projectPT: elements of the projected tensor', case, flat, mv)
+        if toks[-1] != 'T':
+            ctx.disagree('Pj.faithful: the job is outside the hypotheses of C06p.projectPT_cells', case, 'T', toks[-1])
 
 
 def run(ctx):
@@ -950,6 +983,7 @@ def run(ctx):
             check(ctx, 'compose_abs', [t2], lambda a: a.abs(), lambda a: a.abs(), True, reqs, meta)
         except Exception:
             pass
+    run_projectpt_model(ctx)
     # ---- representation semantics against the Lean model
     for (case, name, gd), rep in zip(meta, ctx.driver.ask_many(reqs)):
         if isinstance(rep, Exception): raise rep
